@@ -34,6 +34,23 @@ def build_debug_harness():
     return (exe if rc == 0 else None), out
 
 
+def split_both(o):
+    """'(both <model verdict> <spec verdict>)' -> the two verdict texts (balanced parentheses)"""
+    if not o.startswith("(both "):
+        return o, o
+    body, parts, depth, cur = o[6:-1], [], 0, ""
+    for ch in body:
+        if ch == " " and depth == 0:
+            parts.append(cur)
+            cur = ""
+            continue
+        depth += ch == "("
+        depth -= ch == ")"
+        cur += ch
+    parts.append(cur)
+    return (parts[0], parts[1]) if len(parts) == 2 else (o, o)
+
+
 def run_model_parallel(exe, lines, shards=12):
     """the extracted model over lines, in parallel shards (program lines are long: all cancellation points of one program)"""
     import subprocess, threading
@@ -42,7 +59,7 @@ def run_model_parallel(exe, lines, shards=12):
     outs = [None] * shards
 
     def work(i):
-        p = subprocess.run([exe], input=("\n".join(parts[i]) + "\n").encode(), stdout=subprocess.PIPE, stderr=subprocess.PIPE, timeout=3000)
+        p = subprocess.run(["bash", "-c", "ulimit -s unlimited 2>/dev/null || ulimit -s $(ulimit -Hs); exec \"$0\"", exe], input=("\n".join(parts[i]) + "\n").encode(), stdout=subprocess.PIPE, stderr=subprocess.PIPE, timeout=3000)
         outs[i] = p.stdout.decode("utf-8", "replace").split("\n")[:-1] if p.returncode == 0 else None
     ths = [threading.Thread(target=work, args=(i,)) for i in range(shards)]
     [t.start() for t in ths]
@@ -83,15 +100,7 @@ def correspond(c, exe_m, prog, seed, n, tier, extra=None, name=None, same_as=Non
         if nbad > 10:
             continue
         # the two verdicts: model (Cancel.next) and property statement (direct list computation)
-        mv, sv = (o, o)
-        if o.startswith("(both "):
-            body = o[6:-1]
-            if body.startswith("ok "):
-                mv, sv = "ok", body[3:]
-            elif body.endswith(" ok"):
-                mv, sv = body[:-3], "ok"
-            else:
-                mv, sv = body, body
+        mv, sv = split_both(o)
         if sv != "ok":
             # impl != property statement (prefix of the uncancelled run, then ctx error at poll k, then false forever)
             c.failing_input("cancelled run is not <prefix of the uncancelled run> + ctx.Err() at poll k + (nil,false) forever",
@@ -133,7 +142,7 @@ def run(tier, seed, extra=None):
                 c.broken_correspondence("debug-harness-build", None, V.tail(dlog, 40))
             else:
                 # same programs with fetch counting (slower: the debug trace formats every instruction)
-                std = correspond(c, exe_m, "c07dbg", seed, n if tier == "quick" else 150, tier, extra=extra, name="c07dbg",
+                std = correspond(c, exe_m, "c07dbg", seed, n if tier == "quick" else 150, "quick", extra=extra, name="c07dbg",
                                  same_as=first_cases if tier == "quick" else None)
     rule = ("programs: ~290 fixed (finite, error mid-stream, try/catch, label/break, limit/first/until/while/repeat/recurse/range, "
             "reduce/foreach, paths/updates, user functions, native Go iterators, inputs, 60 infinite forms) + seeded generator x wrapper "
